@@ -130,10 +130,12 @@ def cals(t):
 def adjuster(t):
     if t == "-":
         return None
-    import lxml.etree as ET
-    from space_packet_parser.xtce import encodings as enc
-    el = ET.fromstring(f'<DynamicValue><LinearAdjustment slope="{int(t[0])}" intercept="{int(t[1])}"/></DynamicValue>')
-    return enc.DataEncoding._get_linear_adjuster(el)
+    slope, intercept = int(t[0]), int(t[1])
+
+    def adjust(x):
+        # any callable is a linear adjuster to the library; this is the one a `<LinearAdjustment>` stands for
+        return intercept + slope * x
+    return adjust
 
 
 def encoding(t):
